@@ -7,6 +7,7 @@ https://www.bundesbank.de/resource/blob/603320/16a80c739bbbae592ca575905975c2d0/
 
 from __future__ import annotations
 
+import threading
 from dataclasses import dataclass
 from itertools import cycle
 from typing import ClassVar
@@ -42,7 +43,17 @@ class WeightedModulus(checksum.Algorithm):
 
     def __init__(self) -> None:
         self.weighted_sum: int = 0
-        self.remainder: int = 0
+        # The algorithm objects are shared singletons: the scratch value handed from `compute` to
+        # `reconcile`/`validate` is kept per thread, so that concurrent validations do not interfere.
+        self._scratch = threading.local()
+
+    @property
+    def remainder(self) -> int:
+        return getattr(self._scratch, "remainder", 0)
+
+    @remainder.setter
+    def remainder(self, value: int) -> None:
+        self._scratch.remainder = value
 
     def compute(self, components: list[str]) -> str:
         [account_code] = components
